@@ -575,3 +575,37 @@ func verifC01AssertAllVotes(o *verifC01Oracle, p *player, out []action) {
 	verifC01AssertS2(o, out)
 	verifC01AssertS3(o, out)
 }
+
+// ---------------------------------------------------------------------------
+// Model sanity.  gosym overlays a harness file only for the properties that
+// have a harness in it; C02 and C03 reuse this file's oracle, so the sanity
+// lemma of the payload/value idealisation is registered for all three: the
+// payload the oracle hands out for value v has value() == v, distinct
+// representative values are distinct, and index 0 is bottom.
+
+//verif:noop (*github.com/algorand/go-algorand/agreement.tracer).log
+//verif:noop (github.com/algorand/go-algorand/data/basics.Address).String
+//verif:noop (github.com/algorand/go-algorand/crypto.Digest).String
+//verif:stub (github.com/algorand/go-algorand/agreement.step).nextVoteRanges = verifStubNextVoteRanges
+//verif:stub (github.com/algorand/go-algorand/agreement.unauthenticatedProposal).value = verifStubProposalValue
+
+func verifC01ModelSanity() {
+	o := verifC01NewOracle()
+	i := verifC04Pick("i", verifC01Values)
+	j := verifC04Pick("j", verifC01Values)
+	vi, vj := verifC01Val(o, i), verifC01Val(o, j)
+	vr.Assert("model.value-injective", (vi == vj) == (i == j))
+	vr.Assert("model.zero-is-bottom", (vi == bottom) == (i == 0))
+	pp := verifC01Payload(vi)
+	vr.Assert("model.payload-value", pp.u().value() == vi)
+	vr.Reach("done")
+}
+
+//verif:harness prop=C01 reach=done
+func VerifC01ModelSanity() { verifC01ModelSanity() }
+
+//verif:harness prop=C02 reach=done
+func VerifC02ModelSanity() { verifC01ModelSanity() }
+
+//verif:harness prop=C03 reach=done
+func VerifC03ModelSanity() { verifC01ModelSanity() }
